@@ -463,6 +463,18 @@ def unroll_literal_loops(tree: ast.Module) -> int:
     loop has no `else`, and `x` is read nowhere else in the routine.  Table-driven loops and repeated statements are two
     spellings of the same thing; rules see the repeated statements."""
     count = 0
+    # module-level names bound once to a literal tuple / list of simple elements (`_HOST_RECORD_TYPES = (_TYPE_A, _TYPE_AAAA)`):
+    # a loop over such a name is a loop over the literal
+    simple_ = (ast.Name, ast.Attribute, ast.Constant)
+    mod_binds: Dict[str, List[ast.expr]] = {}
+    for st_m in tree.body:
+        if isinstance(st_m, ast.Assign):
+            for t_m in st_m.targets:
+                if isinstance(t_m, ast.Name):
+                    mod_binds.setdefault(t_m.id, []).append(st_m.value)
+        elif isinstance(st_m, ast.AnnAssign) and isinstance(st_m.target, ast.Name) and st_m.value is not None:
+            mod_binds.setdefault(st_m.target.id, []).append(st_m.value)
+    mod_tuples = {k: v[0] for k, v in mod_binds.items() if len(v) == 1 and isinstance(v[0], (ast.Tuple, ast.List)) and 1 <= len(v[0].elts) <= MAX_UNROLL and all(isinstance(e, simple_) for e in v[0].elts)}
 
     def leaves_early(body: List[ast.stmt]) -> bool:
         todo: List[ast.AST] = list(body)
@@ -496,6 +508,9 @@ def unroll_literal_loops(tree: ast.Module) -> int:
                 for hd in getattr(st, 'handlers', []) or []:
                     hd.body = block(hd.body)
                 simple = (ast.Name, ast.Attribute, ast.Constant)
+                if (isinstance(st, ast.For) and isinstance(st.iter, ast.Name) and st.iter.id in mod_tuples
+                        and not any(isinstance(x, ast.Name) and x.id == st.iter.id and isinstance(x.ctx, (ast.Store, ast.Del)) for x in ast.walk(fn))):
+                    st.iter = copy.deepcopy(mod_tuples[st.iter.id])
                 if (isinstance(st, ast.For) and not st.orelse and isinstance(st.iter, (ast.Tuple, ast.List)) and 1 <= len(st.iter.elts) <= MAX_UNROLL
                         and not leaves_early(st.body)):
                     # one name per row, or a tuple of names unpacked from rows that are literal tuples of the same width
